@@ -67,7 +67,7 @@ InitTh(t) ==
     gen |-> 0, disc |-> FALSE, node |-> 0, offset |-> 0, held |-> <<>>, handles |-> <<>>,
     stack |-> <<>>, r |-> NoG, old |-> 0, new |-> 0, todo |-> <<>>, m |-> 0, control |-> IDLE,
     ts |-> 0, ms |-> 0, ps |-> <<>>, steps |-> 0, cur |-> NoG, wl |-> <<>>, scan |-> 0,
-    spur |-> 0, kind |-> "", depth |-> 0, after |-> "", used |-> FALSE, hnode |-> 0, prev |-> NoG, cont |-> "", iafter |-> "" ]
+    spur |-> 0, kind |-> "", depth |-> 0, after |-> "", used |-> FALSE, hnode |-> 0, prev |-> NoG, cont |-> "", iafter |-> "", cache |-> 0, xshared |-> 0 ]
 
 Init ==
   /\ sh = [ storage |-> [c \in Conts |-> c],        \* container c initially holds the object at address c
@@ -193,6 +193,21 @@ Begin(t) ==
               /\ IF MY(t) = 0 THEN Set(t, [InitTh(t) EXCEPT !.ip = L(t).ip + 1, !.held = L(t).held, !.handles = L(t).handles]) /\ UNCHANGED sh
                  ELSE Set(t, [L(t) EXCEPT !.pc = "X_res", !.after = "exit"]) /\ UNCHANGED sh
               /\ NoEmit /\ UNCHANGED hp
+         [] o.k = "cnew" ->     \* Cache::new = load_full (cache.rs:105)
+              /\ Set(t, With([L(t) EXCEPT !.c = o.c, !.kind = "cnew", !.steps = 0, !.stack = <<"top">>, !.depth = 1], LoadEntry))
+              /\ Emit(<<[e |-> "inv", t |-> t, op |-> "cache_new", c |-> o.c, a |-> 0, b |-> 0, r |-> t]>>) /\ UNCHANGED <<sh, hp>>
+         [] o.k = "cload" ->    \* Cache::load: revalidate (cache.rs:159-167)
+              /\ IF L(t).cache = 0 THEN Set(t, [L(t) EXCEPT !.ip = @ + 1]) /\ NoEmit
+                 ELSE /\ Set(t, [L(t) EXCEPT !.pc = "X_check", !.kind = "cload", !.steps = 0, !.depth = 1])
+                      /\ Emit(<<[e |-> "inv", t |-> t, op |-> "cache_load", c |-> -1, a |-> 0, b |-> 0, r |-> t]>>)
+              /\ UNCHANGED <<sh, hp>>
+         [] o.k = "cdrop" ->
+              /\ IF L(t).cache = 0 THEN Set(t, [L(t) EXCEPT !.ip = @ + 1]) /\ NoEmit /\ UNCHANGED hp
+                 ELSE /\ Set(t, [L(t) EXCEPT !.cache = 0, !.ip = @ + 1])
+                      /\ Emit(<<[e |-> "inv", t |-> t, op |-> "cache_drop", c |-> -1, a |-> 0, b |-> 0, r |-> t]>>
+                              \o DecEvs(t, L(t).cache) \o <<RetEv(t, "cache_drop", -1, 0, t, 1)>>)
+                      /\ hp' = HpAfterDec(L(t).cache)
+              /\ UNCHANGED sh
          [] o.k = "setgen" ->    \* C13: preset the counter so that it wraps after o.c more transactions
               /\ Set(t, [L(t) EXCEPT !.gen = (GenMod - o.c) % GenMod, !.ip = @ + 1]) /\ NoEmit /\ UNCHANGED <<sh, hp>>
 
@@ -266,7 +281,7 @@ Return(t, r, g, pre) ==
   CASE lbl = "top" /\ r.kind = "load" ->
          /\ Set(t, Finish(t, [r1 EXCEPT !.held = Append(@, [g |-> g, reg |-> FreeG(t)])]))
          /\ Emit(pre \o <<RetEv(t, "load", r.c, Obj(g.a), FreeG(t), r.steps)>>)
-    [] lbl = "top" (* loadfull *) -> Set(t, EndWith([r1 EXCEPT !.iafter = "LF"], "I_start")) /\ Emit(pre)
+    [] lbl = "top" (* load_full, Cache::new, the reload of Cache::load *) -> Set(t, EndWith([r1 EXCEPT !.iafter = "LF"], "I_start")) /\ Emit(pre)
     [] lbl = "H_into" (* nested inside a writer: not an outermost use *) -> Set(t, [r1 EXCEPT !.pc = lbl]) /\ Emit(pre)
     [] OTHER -> Set(t, EndWith(r1, lbl)) /\ Emit(pre)
 
@@ -398,9 +413,25 @@ I_dec(t) ==    \* hybrid.rs:143 T::dec
 I_done(t) ==
   /\ PC(t) = "I_done"
   /\ IF L(t).iafter = "LF"
-     THEN /\ Set(t, Done([L(t) EXCEPT !.handles = Append(@, [a |-> L(t).r.a, reg |-> FreeH(t)])]))
-          /\ Emit(<<RetEv(t, "load_full", L(t).c, Obj(L(t).r.a), FreeH(t), L(t).steps)>>)
-     ELSE Set(t, [L(t) EXCEPT !.pc = "H_their"]) /\ NoEmit
+     THEN CASE L(t).kind = "cnew" ->
+                 /\ Set(t, Done([L(t) EXCEPT !.cache = L(t).r.a]))
+                 /\ Emit(<<RetEv(t, "cache_new", L(t).c, Obj(L(t).r.a), t, L(t).steps)>>) /\ UNCHANGED hp
+            [] L(t).kind = "cload" ->   \* self.cached = load_full(): the superseded value is released here
+                 /\ Set(t, Done([L(t) EXCEPT !.cache = L(t).r.a]))
+                 /\ Emit(DecEvs(t, L(t).cache) \o <<RetEv(t, "cache_load", -1, Obj(L(t).r.a), t, L(t).steps)>>)
+                 /\ hp' = HpAfterDec(L(t).cache)
+            [] OTHER ->
+                 /\ Set(t, Done([L(t) EXCEPT !.handles = Append(@, [a |-> L(t).r.a, reg |-> FreeH(t)])]))
+                 /\ Emit(<<RetEv(t, "load_full", L(t).c, Obj(L(t).r.a), FreeH(t), L(t).steps)>>) /\ UNCHANGED hp
+     ELSE Set(t, [L(t) EXCEPT !.pc = "H_their"]) /\ NoEmit /\ UNCHANGED hp
+  /\ UNCHANGED sh
+
+X_check(t) ==  \* cache.rs:164 arc_swap.ptr.load(Relaxed) compared with the address of the retained value
+  /\ PC(t) = "X_check"
+  /\ IF sh.storage[L(t).c] = L(t).cache \/ Bug = "cache_never_revalidates"
+     THEN /\ Set(t, Done(Step1(L(t))))
+          /\ Emit(<<RetEv(t, "cache_load", -1, Obj(L(t).cache), t, L(t).steps + 1)>>)
+     ELSE /\ Set(t, With(Step1([L(t) EXCEPT !.stack = <<"top">>]), LoadEntry)) /\ NoEmit
   /\ UNCHANGED <<sh, hp>>
 
 D_pay(t) ==    \* hybrid.rs:113 debt.pay on guard drop
@@ -633,7 +664,7 @@ Step(t) ==
   \/ L_first(t) \/ L_probe(t) \/ L_slot(t) \/ L_confirm(t) \/ L_pay(t)
   \/ F_addr(t) \/ F_ctrl(t) \/ F_cand(t) \/ F_hslot(t) \/ F_conf(t) \/ F_inc(t) \/ F_pay(t) \/ F_dec(t)
   \/ F_env(t) \/ F_space(t) \/ F_pay2(t)
-  \/ I_start(t) \/ I_pay(t) \/ I_dec(t) \/ I_done(t) \/ D_pay(t) \/ D_dec(t) \/ DH_dec(t)
+  \/ I_start(t) \/ I_pay(t) \/ I_dec(t) \/ I_done(t) \/ D_pay(t) \/ D_dec(t) \/ DH_dec(t) \/ X_check(t)
   \/ W_swap(t) \/ W_inc(t) \/ W_head(t) \/ W_next(t) \/ W_res(t)
   \/ H_ctrl(t) \/ H_sw(t) \/ H_addr(t) \/ H_re(t) \/ H_into(t) \/ H_their(t) \/ H_mine(t) \/ H_envst(t)
   \/ H_cas(t) \/ H_spacest(t) \/ H_drop(t) \/ P_slot(t) \/ P_inc(t) \/ W_rel(t) \/ W_dec(t) \/ W_ret(t)
